@@ -161,6 +161,16 @@ def passThrough (a : Dispatch.Action) (input : R) : R :=
   | .doneResult, r => r
   | _, _ => .exc 999999
 
+/-- what CallImpl receives: Core::Drop builds `Result{StopTag{}}`; Core::Call of a Run-type core builds `Unit{}` /
+    `Result{Unit{}}` itself (value 0 here); any other core moves the Result out of its caller -/
+def seenInput (ty : Nat) (dropped : Bool) (input0 : R) : R :=
+  if dropped then (match Dispatch.dropInput with | .stopTag => R.stop)
+  else if Dispatch.isRun ty then .val 0 else input0
+
+/-- `T = Unit` in CallImpl: only Core::Call of a Run-type core with a no-argument functor -/
+def passesUnit (ty : Nat) (dropped : Bool) (sig : Sig) : Bool :=
+  !dropped && Dispatch.callPassesUnit (Dispatch.isRun ty) (sig == .val)
+
 def addK (input : R) (k : Int) : R :=
   match input with
   | .val n => .val (n + k)
@@ -269,6 +279,10 @@ def asyncDoneAcct (ty : Nat) (g : G) : G :=
   let g := if Dispatch.doneDecRef ty true true then g.freeCore else g
   if Dispatch.doneDestroysFunctor true then g.freeFunctor else g
 
+def Src.isReady : Src → Bool
+  | .ready _ => true
+  | _ => false
+
 def srcCores : Src → Nat
   | .unit => 0
   | _ => 1
@@ -328,14 +342,22 @@ def overrideHead (steps : List Step) (ovr : Option Exec) : List Step :=
 
 /-! ## The mechanism -/
 
+/-- the inner pipeline built by the functor of an outer step has run as far as it can: either its result is there and
+    the outer step completes with it (async_done), or the outer step stays behind as an unwrapping frame -/
+def asyncFinish (ty : Nat) (own : Exec) (k : List Step) (lazy : Bool) (ctx : Option Nat) : Out → Out
+  | .done r' _ c' g4 =>
+    let g5 := if lazy then g4 else asyncRetAcct ty g4
+    .done r' own (if lazy then c' else ctx) (asyncDoneAcct ty g5)
+  | .parked t g4 => .parked { t with outer := t.outer ++ [⟨ty, own, k⟩] } (if lazy then g4 else asyncRetAcct ty g4)
+  | .crash g4 => .crash g4
+
 mutual
   /-- Core::Call / Core::Drop of step `s` (`k` = the continuations already attached behind it, only stored when parking) -/
   def callStep (cfg : Cfg) : Step → List Step → Bool → Bool → Option Nat → Option Exec → R → Exec → G → Out
     | .mk id sig mode beh, k, hd, dropped, ctx, via, input0, own, g =>
       let ty := stepType mode hd
-      let input := if dropped then (match Dispatch.dropInput with | .stopTag => R.stop) else input0
-      let tIsUnit := !dropped && Dispatch.callPassesUnit (Dispatch.isRun ty) (sig == .val)
-      match route sig tIsUnit hd input with
+      let input := seenInput ty dropped input0
+      match route sig (passesUnit ty dropped sig) (Dispatch.isRun ty) input with
       | .call =>
         let g1 := g.invoke id ctx via
         (match beh with
@@ -348,13 +370,8 @@ mutual
            let st := if lazy then enterHere src ctx (asyncRetAcct ty g2) else startSrc cfg src ctx g2
            (match st with
             | .go r0 inh0 c0 g3 =>
-              (match runSteps cfg steps (src == .unit) lazy (if lazy then c0 else ctx) r0 inh0 g3 with
-               | .done r' _ c' g4 =>
-                 let g5 := if lazy then g4 else asyncRetAcct ty g4
-                 .done r' own (if lazy then c' else ctx) (asyncDoneAcct ty g5)
-               | .parked t g4 =>
-                 .parked { t with outer := t.outer ++ [⟨ty, own, k⟩] } (if lazy then g4 else asyncRetAcct ty g4)
-               | .crash g4 => .crash g4)
+              asyncFinish ty own k lazy ctx
+                (runSteps cfg steps (src == .unit) lazy (if lazy then c0 else ctx) r0 inh0 g3)
             | .wait w inh0 g3 =>
               .parked ⟨w, inh0, steps, [⟨ty, own, k⟩]⟩ (if lazy then g3 else asyncRetAcct ty g3)
             | .crash g3 => .crash g3))
@@ -418,6 +435,7 @@ structure State where
   held : Bool := false      -- the client holds the Future / Task handle of the last core
   ended : Bool := false     -- the chain ends in a Detach*-step (its core carries the Drop callback)
   got : Option R := none    -- what Get() returned
+  result : Option R := none -- ghost: the Result the pipeline completed with (kept when the handle is given up)
   crashed : Bool := false
   g : G := {}
 
@@ -448,20 +466,26 @@ inductive Event
   | call (k : Nat)           -- user queue executor k pops one job and Calls it
   | start (k : StartKind)
   | dropFuture               -- ~Future
-  | get                      -- Future::Get() && on a ready future
+  | get                      -- Future::Get() && on a ready future (a future that is not ready is destroyed instead)
+
+/-- a continuation attached to the last core of the pipeline: behind the outermost chain -/
+def attachFrames : List Frame → Step → List Frame
+  | [], _ => []
+  | [f], s => [⟨f.ty, f.own, f.rest ++ [s]⟩]
+  | f :: fs, s => f :: attachFrames fs s
 
 def Thread.attach (t : Thread) (s : Step) : Thread :=
-  match t.outer.reverse with
+  match t.outer with
   | [] => { t with rest := t.rest ++ [s] }
-  | f :: fs => { t with outer := (⟨f.ty, f.own, f.rest ++ [s]⟩ :: fs).reverse }
+  | fs => { t with outer := attachFrames fs s }
 
 /-- a cascade has come to rest -/
 def settle (st : State) (o : Out) : State :=
   match o with
   | .done r inh _ g =>
-    if st.ended then { st with ctl := .gone, g := g }
-    else if st.held then { st with ctl := .future r inh, g := g }
-    else { st with ctl := .gone, g := g.freeCore }           -- the Drop callback releases the last core
+    if st.ended then { st with ctl := .gone, result := some r, g := g }
+    else if st.held then { st with ctl := .future r inh, result := some r, g := g }
+    else { st with ctl := .gone, result := some r, g := g.freeCore }   -- the Drop callback releases the last core
   | .parked t g => { st with ctl := .pending t, g := g }
   | .crash g => { st with crashed := true, g := g }
 
@@ -475,19 +499,23 @@ def mech (cfg : Cfg) (st : State) (ev : Event) : State :=
   if st.crashed then st else
   match ev, st.ctl with
   | .src s lazy head, .idle =>
+    if (s == .unit) != head.isSome then st else   -- Run / Schedule come with their head functor, nothing else does
     let hs := head.toList
     let g := (st.g.allocCore (srcCores s + hs.length)).allocFunctor (srcFunctors s + hs.length)
     let st := { st with held := true, g := g }
     if lazy then { st with ctl := .task s hs }
     else started cfg st hs (s == .unit) false (startSrc cfg s none g)
   | .attach s, .future r inh =>
+    if !st.held then st else
     let g := st.g.allocCore.allocFunctor
     let st := if s.mode.isDetach then { st with held := false, ended := true } else st
     settle st (runSteps cfg [s] false false none r inh g)
   | .attach s, .pending t =>
+    if !st.held then st else
     let st := if s.mode.isDetach then { st with held := false, ended := true } else st
     { st with ctl := .pending (t.attach s), g := st.g.allocCore.allocFunctor }
   | .attach s, .task src steps =>
+    if s.mode.isDetach then st else     -- Task has no Detach(f)
     { st with ctl := .task src (steps ++ [s]), g := st.g.allocCore.allocFunctor }
   | .set p, .pending t =>
     (match t.wait with
@@ -504,6 +532,7 @@ def mech (cfg : Cfg) (st : State) (ev : Event) : State :=
   | .dropFuture, .future _ _ => if st.held then { st with ctl := .gone, held := false, g := st.g.freeCore } else st
   | .dropFuture, .pending _ => { st with held := false }
   | .get, .future r _ => if st.held then { st with ctl := .gone, held := false, got := some r, g := st.g.freeCore } else st
+  | .get, .pending _ => { st with held := false }     -- Get() would block for ever: the client gives the future up
   | _, _ => st
 
 def run (cfg : Cfg) (st : State) (evs : List Event) : State := evs.foldl (mech cfg) st
@@ -537,6 +566,12 @@ def Mode.submits : Mode → Bool
   | .detachInline => false
   | _ => true
 
+/-- the executor a step carries: the one named at its attachment, else the one of the state it is attached to -/
+def ownExec (m : Mode) (inh : Exec) : Exec :=
+  match m.explicit with
+  | some e => e
+  | none => inh
+
 /-- what a step submitted to `e` receives: its input, or StopError when `e` refuses -/
 def offered (cfg : Cfg) (e : Exec) (r : R) (subs : List Nat) : R × List Nat :=
   match e with
@@ -563,29 +598,32 @@ def specSrc (cfg : Cfg) (src : Src) (ovr : Option Exec) (lazy : Bool) (subs : Li
   | .sharedContract _ f => (f.result, .inl, subs)
 
 mutual
-  def specStep (cfg : Cfg) : Step → Bool → R → Exec → List Nat → List Nat → SOut
-    | .mk id sig mode beh, hd, r, inh, subs, inv =>
-      let own := match mode.explicit with
-        | some e => e
-        | none => inh
-      let (input, subs1) := if mode.submits || hd then offered cfg own r subs else (r, subs)
+  /-- the functor of a step is offered `input` (its own input, or StopError if its executor refused it) -/
+  def specCall (cfg : Cfg) : Step → R → Exec → List Nat → List Nat → SOut
+    | .mk id sig _ beh, input, own, subs, inv =>
       if runsOn sig input then
         (match beh with
-         | .val k => ⟨addK input k, own, subs1, inv ++ [id]⟩
-         | .res r' => ⟨r', own, subs1, inv ++ [id]⟩
-         | .throw t => ⟨.exc t, own, subs1, inv ++ [id]⟩
+         | .val k => ⟨addK input k, own, subs, inv ++ [id]⟩
+         | .res r' => ⟨r', own, subs, inv ++ [id]⟩
+         | .throw t => ⟨.exc t, own, subs, inv ++ [id]⟩
          | .async src _ steps =>
-           let (r0, inh0, subs2) := specSrc cfg src none false subs1
-           let o := specSteps cfg steps (src == .unit) r0 inh0 subs2 (inv ++ [id])
+           let s0 := specSrc cfg src none false subs
+           let o := specSteps cfg steps (src == .unit) s0.1 s0.2.1 s0.2.2 (inv ++ [id])
            ⟨o.r, own, o.subs, o.invoked⟩)
-      else ⟨input, own, subs1, inv⟩
+      else ⟨input, own, subs, inv⟩
 
+  /-- a chain of steps fed with `r` by a state whose executor is `inh`; `hd`: the first step is a Run/Schedule head -/
   def specSteps (cfg : Cfg) : List Step → Bool → R → Exec → List Nat → List Nat → SOut
     | [], _, r, inh, subs, inv => ⟨r, inh, subs, inv⟩
     | s :: ss, hd, r, inh, subs, inv =>
-      let o := specStep cfg s hd r inh subs inv
+      let own := ownExec s.mode inh
+      let io := if s.mode.submits || hd then offered cfg own (if hd then .val 0 else r) subs else (r, subs)
+      let o := specCall cfg s io.1 own io.2 inv
       specSteps cfg ss false o.r o.inh o.subs o.invoked
 end
+
+def specStep (cfg : Cfg) (s : Step) (hd : Bool) (r : R) (inh : Exec) (subs inv : List Nat) : SOut :=
+  specSteps cfg [s] hd r inh subs inv
 
 /-- a whole program: source, lazy?, steps, how a lazy one is started -/
 structure Prog where
@@ -596,19 +634,32 @@ structure Prog where
 
 def spec (cfg : Cfg) (p : Prog) : SOut :=
   let ovr := if p.lazy then (p.start.bind StartKind.ovr) else none
-  let (r0, inh0, subs0) := specSrc cfg p.src ovr p.lazy []
-  specSteps cfg (overrideHead p.steps (if p.src == .unit then ovr else none)) (p.src == .unit) r0 inh0 subs0 []
+  let s0 := specSrc cfg p.src ovr p.lazy []
+  specSteps cfg (overrideHead p.steps (if p.src == .unit then ovr else none)) (p.src == .unit) s0.1 s0.2.1 s0.2.2 []
 
-/-- the program a list of client events has built -/
-def progOf : List Event → Option Prog
+/-- which handle the client holds (the C++ type system enforces this discipline: a moved-from handle cannot be used) -/
+inductive Handle | none | fut | task
+deriving DecidableEq, Repr
+
+/-- the client's own view of one of its events: how the program text grows, which handle is left -/
+def clientEv (ph : Prog × Handle) (ev : Event) : Prog × Handle :=
+  match ev, ph.2 with
+  | .attach s, .fut => ({ ph.1 with steps := ph.1.steps ++ [s] }, if s.mode.isDetach then .none else .fut)
+  | .attach s, .task => if s.mode.isDetach then ph else ({ ph.1 with steps := ph.1.steps ++ [s] }, .task)
+  | .start k, .task => ({ ph.1 with start := some k }, if k.holds then .fut else .none)
+  | .dropFuture, .fut => (ph.1, .none)
+  | .get, .fut => (ph.1, .none)
+  | _, _ => ph
+
+/-- the program a list of client events has built, and the handle left -/
+def client : List Event → Option (Prog × Handle)
   | [] => none
   | .src s lazy head :: evs =>
-    some (evs.foldl (fun p ev =>
-      match ev with
-      | .attach st => { p with steps := p.steps ++ [st] }
-      | .start k => if p.start.isNone then { p with start := some k } else p
-      | _ => p) ⟨s, lazy, head.toList, none⟩)
-  | _ :: evs => progOf evs
+    if (s == .unit) != head.isSome then client evs
+    else some (evs.foldl clientEv (⟨s, lazy, head.toList, none⟩, if lazy then .task else .fut))
+  | _ :: evs => client evs
+
+def progOf (evs : List Event) : Option Prog := (client evs).map (·.1)
 
 /-! ## Defect D10: the program shapes on which the implementation (and `mech`) crashes -/
 
@@ -617,9 +668,7 @@ mutual
     | .mk _ _ _ beh =>
       (match beh with
        | .async src lazy steps =>
-         (!(lazy && (match src with
-                     | .ready _ => false
-                     | _ => true))) && d10FreeSteps steps
+         (!(lazy && !src.isReady)) && d10FreeSteps steps
        | _ => true)
   def d10FreeSteps : List Step → Bool
     | [] => true
